@@ -68,6 +68,13 @@ def cases(tier):
                     assigns.append(dict(zip(map(str, where), facs)))
         for j, a in enumerate(assigns):
             out.append({"fam": "rad", "pts": S, "fac": a, "pl": pq[(si + j) % 8]})
+    # prisms whose caps are single convex faces with 6..10 corners (the face triangulation has real work to do), every
+    # cyclic start of the cap's vertex list
+    for name, poly in BIGCAPS.items():
+        n = len(poly)
+        for st in range(n):
+            for j in range(2 if tier == "quick" else 4):
+                out.append({"fam": "capprism", "cap": name, "start": st, "h": 1 + (st % 2), "pl": pq[(st + 3 * j + n) % 8]})
     kmax = 5 if tier == "quick" else 6
     for S in A.s3_upto(kmax):
         pls = pq if tier == "thorough" else [pq[0], pq[3]]
@@ -76,8 +83,28 @@ def cases(tier):
     return out
 
 
+BIGCAPS = {
+    "hexagon": [(1, 0), (2, 0), (3, 1), (2, 2), (1, 2), (0, 1)],
+    "octagon": [(1, 0), (2, 0), (3, 1), (3, 2), (2, 3), (1, 3), (0, 2), (0, 1)],
+    "heptagon": [(0, 0), (2, -1), (4, 0), (5, 2), (4, 4), (1, 5), (-1, 3)],
+    "decagon": [(2, 0), (4, 0), (6, 1), (7, 3), (7, 5), (6, 7), (4, 8), (2, 8), (0, 6), (0, 2)],
+    "nonagon-thin": [(0, 0), (8, 0), (16, 1), (23, 3), (24, 4), (23, 5), (16, 7), (8, 8), (0, 8)],
+}
+
+
 def build_mesh(case):
     """-> (base points (exact numbers), faces as index lists, outward) or None"""
+    if case["fam"] == "capprism":
+        poly = BIGCAPS[case["cap"]]
+        n, h, st = len(poly), case["h"], case["start"]
+        verts = [(p[0], p[1], 0) for p in poly] + [(p[0], p[1], h) for p in poly]
+        top = [n + i for i in range(n)]
+        bot = list(range(n))[::-1]
+        faces = [bot[st:] + bot[:st], top[st:] + top[:st]]
+        for i in range(n):
+            j = (i + 1) % n
+            faces.append([i, j, n + j, n + i])
+        return verts, faces, None
     if case["fam"] == "vox":
         v = A.vox(tuple(case["box"]))[case["i"]]
         return [tuple(p) for p in v["verts"]], [list(f) for f in v["faces"]], v
